@@ -183,8 +183,12 @@ def _run_property(pid, tier='quick', seed=0, only=None, jobs=None):
                 verdict = 'vacuous'
                 harness_errors.append(f'{o.id}: reachability twin was CONFIRMED (obligation is vacuous)')
             elif tw is not None and tw['status'] == 'PRE_UNSAT':
-                verdict = 'vacuous'
-                harness_errors.append(f'{o.id}: twin cannot meet precondition (obligation is vacuous)')
+                # CrossHair says "unable to meet precondition" also when every satisfying path was cut by the twin's 30 s limit;
+                # the main run was CONFIRMED (not "unable to meet precondition"), so the precondition is satisfiable: the twin
+                # simply decided nothing => reachability not shown, not counted as discharged
+                verdict = 'inconclusive'
+                entry['note'] = 'twin could not meet the precondition within its time limit: reachability not shown, not counted'
+                inconclusive += 1
             elif not twin_ok:
                 verdict = 'inconclusive'
                 entry['note'] = 'twin not refuted (%s): reachability not shown, not counted' % tw['status']
